@@ -230,6 +230,9 @@ func kindOf(got, want int) string {
 func Run(c *common.Ctx) error {
 	cf := c.Cases("cases_c12", "Require Import LF.Model.RWMutex.", "list (nat * nat) * list nat", "mismatches")
 	byteRanges(c)
+	if err := sameOwnerRace(c); err != nil {
+		return err
+	}
 	if err := rangeAttempts(c); err != nil {
 		return err
 	}
